@@ -67,7 +67,7 @@ def rule_bal(S, la):
              'exits disagree about which locks are released / still held: ' + ' | '.join(detail), loc=loc, path=path,
              detail=detail)
         # locally acquired locks still held at an exit
-        leaks = [(e, [t for t in e['keep'] if t[0] != 'out']) for e in considered]
+        leaks = [(e, [t for t in e['keep'] if t[0] not in ('out', 'ret')]) for e in considered]
         leaks = [(e, ts) for e, ts in leaks if ts]
         S.ob('R-BAL', fname(f), 'no lock taken here is left held', not leaks,
              'no exit leaves a locally acquired lock held' if not leaks else
